@@ -76,6 +76,8 @@ fn main() {
         }
         "C07" => {
           g_fp::gen(seed, thorough, only, &mut out);
+          // the same operations down to the internal Montgomery limbs, against the model of the generated limb code
+          g_fp::gen_limbs(seed, thorough, &mut out);
           // encodings not below the modulus are also refused where a secret is cut into elements
           g_sharks::gen_bad_chunks(&mut out);
         }
